@@ -478,6 +478,10 @@ def run(ck, F):
     from rules import c04 as C04
     from rules import templates as T_
     C01.rule_refs_name_derivable_items(C04._Sub(ck, "R5", lambda key: key.startswith("ref-type-from-reference")), F, T_.extractor(F))
+    # a definition that is read out of its turn (a forward reference) is read under its own schema's namespace: otherwise what is
+    # made of a reference depends on whether the definition comes before or after it
+    from rules import c10 as C10
+    C10.rule_component_read_out_of_turn(C04._Sub(ck, "R4", lambda key: key.startswith("out-of-turn") or "floor" in key), F, rule="R6")
     # builtin decision: wherever as_rust_type consults the builtin table (the match, the constant table, a helper holding either),
     # it does so only on the paths on which the prefix of the reference was found not to name a namespace of the document
     b = F.lib.body(C02.AS_RUST_TYPE)
